@@ -292,6 +292,21 @@ impl<T: Object> Object for StreamInfo<T> {
         let mut new_filters = Vec::new();
         let mut new_file_filters = Vec::new();
 
+        // Filter parameters may hold a stream of their own (/JBIG2Globals), which is read here, by value,
+        // with its own filters and parameters: bound that nesting (a stream may name itself).
+        thread_local!(static PARAMS_DEPTH: std::cell::Cell<usize> = std::cell::Cell::new(0));
+        struct Leave;
+        impl Drop for Leave {
+            fn drop(&mut self) {
+                PARAMS_DEPTH.with(|d| d.set(d.get() - 1));
+            }
+        }
+        if PARAMS_DEPTH.with(|d| d.get()) >= 4 {
+            bail!("stream filter parameters nested too deeply");
+        }
+        PARAMS_DEPTH.with(|d| d.set(d.get() + 1));
+        let _leave = Leave;
+
         for (i, filter) in filters.iter().enumerate() {
             let params = match decode_params.get(i) {
                 Some(Some(params)) => params.clone(),
